@@ -22,7 +22,7 @@ def child_stub(ty, node_ctor, method='execute', path='ast::'):
 ''' % (path, ty, method, node_ctor)
 
 
-def exec_unit(uid, title, repo, opaque_ast, node_enum, props=('C02', 'C03')):
+def exec_unit(uid, title, repo, opaque_ast, node_enum, props=('C02', 'C03'), aux='pub struct Aux { pub u: u8 }\n'):
     u = Unit(uid, title, repo, list(props), safety_props=['C01'] + list(props))
     u.raw(HEADER)
     interp = u.source('brush-core/src/interp.rs')
@@ -31,7 +31,7 @@ def exec_unit(uid, title, repo, opaque_ast, node_enum, props=('C02', 'C03')):
     if 'pub suppress_errexit: bool,' not in ep.text:
         raise ExtractError('ExecutionParameters no longer has `pub suppress_errexit: bool`')
     u.ast_open = 'pub mod ast {\nuse vstd::prelude::*;\n' + ''.join(OPAQUE % t for t in opaque_ast)
-    u.node_enum = node_enum
+    u.node_enum = node_enum + aux
     u.assume('external_body', 'children are abstract: %s are opaque types whose execute() stubs append one event and return an arbitrary result (dynamic dispatch through the Execute trait is replaced by these stubs, rule R5)' % ', '.join(opaque_ast))
     u.assume('external_body', 'Shell, ParamsRest, error::Error are opaque; Shell::set_last_exit_status sets status() and leaves the trace alone; derived Clone of ExecutionParameters returns an equal value')
     u.assume('uninterp', 'Shell::trace (ghost event log), Shell::status ($?), Shell::xtrace')
